@@ -295,6 +295,41 @@ fn content_fixpoint<C: EventContentFromType + Serialize>(ty: &str, content: &Val
     Ok(s1)
 }
 
+/// The typed content of a redacted state event, serialised again, must carry every value the
+/// redaction kept (the `content` of the generated event is the reference redaction's output) and
+/// no key outside the specification's list for that type and room version.
+fn redacted_state_content_kept(s: &AnyStateEvent, ty: &str, version: u8, content: &Value, cx: &mut CaseCtx) -> Result<(), String> {
+    use ruma_events::{AnyFullStateEventContent as F, FullStateEventContent as C};
+    let out: Value = match s.content() {
+        F::RoomMember(C::Redacted(c)) => serde_json::to_value(&c),
+        F::RoomCreate(C::Redacted(c)) => serde_json::to_value(&c),
+        F::RoomJoinRules(C::Redacted(c)) => serde_json::to_value(&c),
+        F::RoomPowerLevels(C::Redacted(c)) => serde_json::to_value(&c),
+        F::RoomHistoryVisibility(C::Redacted(c)) => serde_json::to_value(&c),
+        _ => return Ok(()),
+    }
+    .map_err(|e| format!("serialising the redacted content of {ty} failed: {e}"))?;
+    cx.class("redacted_content_reserialised");
+    let (Some(o), Some(want)) = (out.as_object(), content.as_object()) else { return Err(format!("redacted content of {ty} serialises as {out}")) };
+    for (k, v) in want {
+        // numbers may come back in another spelling of the same value (C18's other checks cover that)
+        let same = |a: &Value, b: &Value| a == b || matches!((a.as_f64(), b.as_f64()), (Some(x), Some(y)) if x == y) || (a.is_object() && b.is_object()) || (a.is_array() && b.is_array());
+        match o.get(k) {
+            Some(got) if same(got, v) => {}
+            Some(got) => return Err(format!("redacted {ty} (room version {version}): kept key {k:?} changed from {v} to {got}")),
+            // unknown fields are the one thing typed content drops (v11 create keeps all keys)
+            None if omitted_default(ty, &format!("/{k}"), v) || v.is_null() || k.contains("org.example.unknown") => {}
+            None => return Err(format!("redacted {ty} (room version {version}): the kept value {v} at {k:?} is missing from the serialised redacted content {out}")),
+        }
+    }
+    for k in o.keys() {
+        if !want.contains_key(k) && !vf_ref::redact::content_kept(11, ty, k) {
+            return Err(format!("redacted {ty} (room version {version}): serialised redacted content has the key {k:?} which no room version keeps: {out}"));
+        }
+    }
+    Ok(())
+}
+
 fn near_miss_type(t: &str, how: u8) -> String {
     if t.starts_with("m.secret_storage.key.") {
         // every suffix is within the wildcard type: near misses exist on the prefix side only
@@ -453,6 +488,8 @@ fn oracle_with(table: &[Schema], c: &EvCase, cx: &mut CaseCtx) -> Result<(), Str
                         }
                         if s.original_content().is_some() == redacted.is_some() {
                             return Err("original_content() presence disagrees with redaction status".into());
+                        }                        if let Some(v) = redacted {
+                            redacted_state_content_kept(s, &ty, v, &content, cx)?;
                         }
                     }
                     (AnyTimelineEvent::MessageLike(m), Kind::MessageLike) => {
@@ -593,7 +630,7 @@ fn main() {
         },
         move |c, cx| oracle_with(&t2, c, cx),
     );
-    for cls in ["state", "message_like", "ephemeral", "global_account_data", "room_account_data", "to_device", "unknown_type", "redacted_form", "relation", "optional_field_present", "unknown_fields_present", "escaped_or_spaced_spelling", "type_string_escaped", "near_miss_of_known_type"] {
+    for cls in ["state", "message_like", "ephemeral", "global_account_data", "room_account_data", "to_device", "unknown_type", "redacted_form", "relation", "optional_field_present", "unknown_fields_present", "escaped_or_spaced_spelling", "type_string_escaped", "near_miss_of_known_type", "redacted_content_reserialised"] {
         ck.floor("events", cls, 1000);
     }
     let n = ck.n(60_000, 2_000_000);
